@@ -27,6 +27,12 @@ START_NETS = {
     "outer4": ("a,b,ac,d->dcb", {}),
     "grid6": ("ab,bc,ad,be,cf,def->", {}),
     "tree7": ("ab,bcd,ce,df,eg,fh,ghx->xa", {}),
+    # huge odd dimensions: figures far beyond 2**53, cost invariant only (no
+    # arrays of that size exist; the contracting operations are disabled)
+    "bigchain4": ("ab,bc,cd,de->ea", {"a": 3 ** 11, "b": 5 ** 9, "c": 7 ** 8,
+                                       "d": 11 ** 6, "e": 13 ** 6}),
+    "bighyper4": ("ax,bx,cx,ab->cx", {"a": 3 ** 13, "b": 5 ** 10,
+                                       "c": 7 ** 9, "x": 11 ** 7}),
 }
 
 TREE_SHAPES = {
@@ -123,6 +129,8 @@ def alphabet(tree, level="full"):
         ("has_preprocessing",),
         ("copy",),
     ]
+    if max(tree.size_dict.values()) > 10 ** 4:
+        ops = [o for o in ops if o[0] != "contract"]
     for ix in unsliced:
         ops.append(("remove_ind_", ix))
     for ix in unsliced[:2]:
